@@ -682,8 +682,8 @@ FAMILIES = [
     Family("nl-facet", fam_facet, quick=6, thorough=144, budget={"quick": 20, "thorough": 400}),
     Family("nl-linear", fam_linear, quick=8, thorough=192, budget={"quick": 20, "thorough": 400}),
     Family("nl-directed", fam_directed, quick=4, thorough=96, budget={"quick": 15, "thorough": 300}),
-    Family("helpers-np", fam_helpers_np, quick=24, thorough=960, budget={"quick": 15, "thorough": 200}),
-    Family("helpers-jax", fam_helpers_jax, quick=24, thorough=960, budget={"quick": 25, "thorough": 300}),
+    Family("helpers-np", fam_helpers_np, quick=16, thorough=960, budget={"quick": 15, "thorough": 200}),
+    Family("helpers-jax", fam_helpers_jax, quick=16, thorough=960, budget={"quick": 25, "thorough": 300}),
     Family("helpers-fields", fam_helpers_fields, quick=12, thorough=384, budget={"quick": 15, "thorough": 200}),
     Family("helper-exports", fam_helper_exports, quick=1, thorough=1),
     Family("known-defects", fam_known, quick=4, thorough=16, budget={"quick": 15, "thorough": 60}),
